@@ -1,4 +1,4 @@
-import AaVerif.Aa.ParseLemmas
+import AaVerif.Aa.ParseFile
 import AaVerif.Generated.AaTables
 /-!
 # C09 — rule text round-trips through the printer and the parser
@@ -47,6 +47,73 @@ theorem C09_line_to_tokens (ts : List Text) (ns : List Nat) (hat : ∀ t ∈ ts,
 example : (joinPad [S "audit", S "capability", S "chown", S "kill"] [0, 3, 0]).all simpleC = true ∧
     trimSet (S "\n ") (joinPad [S "audit", S "capability", S "chown", S "kill"] [0, 3, 0])
       = joinPad [S "audit", S "capability", S "chown", S "kill"] [0, 3, 0] := by decide
+
+/-- **File rules, every path** (symbolic, no enumeration).  For every qualifier, with or without
+`owner`, EVERY path token that begins with `/` or `@` — variables, alternations `{a,b{c,d}}`, character
+classes, globs, all allowed as long as brackets are balanced, commas sit inside brackets and there is
+no blank, `=`, `(` or `#` — every mode token and every alignment padding: the comma splitter, the
+tokenizer, `parseRule` and the constructors (`newRules`: qualifier loop, keyword dispatch, `newFile`)
+turn the printed line back into one file rule with exactly that path, qualifier and owner flag, and
+the access list `toAccess` builds from the mode. -/
+theorem C09_file_all_paths (audit deny owner : Bool) (p m : Text) (ns : List Nat)
+    (hp : PathHead p) (hpa : Atomic p) (hpp : Plain p) (hma : Atomic m) (hmp : Plain m)
+    (hs : cscan 0 (joinPad (fileToks audit deny owner p m) ns) = some 0)
+    (htrim : trimSet (S "\n ") (joinPad (fileToks audit deny owner p m) ns) = joinPad (fileToks audit deny owner p m) ns) :
+    (parseCommaRules false (joinPad (fileToks audit deny owner p m) ns ++ S ",\n")).bind (newRules T) =
+      (toAccessFile T m).bind (fun a => .ok [mkRule "file" (audit, if deny then S "deny" else []) {}
+        [.b owner, .s p, .l a, .s []]]) := by
+  have hat : ∀ t ∈ fileToks audit deny owner p m, Atomic t := by
+    intro t ht
+    cases audit <;> cases deny <;> cases owner <;> simp [fileToks] at ht
+    all_goals (first
+      | (rcases ht with rfl | rfl | rfl | rfl | rfl)
+      | (rcases ht with rfl | rfl | rfl | rfl)
+      | (rcases ht with rfl | rfl | rfl)
+      | (rcases ht with rfl | rfl))
+    all_goals (first | exact hpa | exact hma | decide)
+  have hpl : ∀ t ∈ fileToks audit deny owner p m, Plain t := by
+    intro t ht
+    cases audit <;> cases deny <;> cases owner <;> simp [fileToks] at ht
+    all_goals (first
+      | (rcases ht with rfl | rfl | rfl | rfl | rfl)
+      | (rcases ht with rfl | rfl | rfl | rfl)
+      | (rcases ht with rfl | rfl | rfl)
+      | (rcases ht with rfl | rfl))
+    all_goals (first | exact hpp | exact hmp | decide)
+  rw [parseCommaRules_line' _ hs, htrim, parseRule_plain _ ns hat hpl]
+  simp only [Res.bind]
+  exact newRules_file T audit deny owner p m hp
+
+/-- a file rule without target and comment -/
+def fileR (audit deny owner : Bool) (p : Text) (acc : List Text) : Rule :=
+  { kind := "file", audit := audit, accessType := if deny then S "deny" else [], flds := [.b owner, .s p, .l acc, .s []] }
+
+/-- the printer writes exactly those tokens, separated by single blanks, when no padding is set -/
+theorem render_file_tokens (audit deny owner : Bool) (p : Text) (acc : List Text) :
+    renderRule (fileR audit deny owner p acc) (padOf []) =
+      joinPad (fileToks audit deny owner p acc.flatten) [] ++ S "," := by
+  cases audit <;> cases deny <;> cases owner <;>
+    simp [fileR, renderRule, renderQual, renderComment, padOf, fL, fS, fB, Rule.fld, Fld.list, Fld.str, Fld.bool, S, joinPad,
+      fileToks, withS, spaces]
+
+/-- **Round trip of a file rule, every path** (no target, no comment, no padding): printing the rule
+and running the library's own parser on the line gives back one file rule with the same qualifier,
+owner flag and path, and the access list `toAccess` reads from the printed permission string. -/
+theorem C09_file_roundtrip (audit deny owner : Bool) (p : Text) (acc : List Text)
+    (hp : PathHead p) (hpa : Atomic p) (hpp : Plain p) (hma : Atomic acc.flatten) (hmp : Plain acc.flatten)
+    (hs : cscan 0 (joinPad (fileToks audit deny owner p acc.flatten) []) = some 0)
+    (htrim : trimSet (S "\n ") (joinPad (fileToks audit deny owner p acc.flatten) []) = joinPad (fileToks audit deny owner p acc.flatten) []) :
+    (parseCommaRules false (renderRule (fileR audit deny owner p acc) (padOf []) ++ S "\n")).bind (newRules T) =
+      (toAccessFile T acc.flatten).bind (fun a => .ok [mkRule "file" (audit, if deny then S "deny" else []) {}
+        [.b owner, .s p, .l a, .s []]]) := by
+  rw [render_file_tokens, List.append_assoc]
+  exact C09_file_all_paths audit deny owner p acc.flatten [] hp hpa hpp hma hmp hs htrim
+
+/-- the hypotheses on a path with a variable, nested alternations, a class and a glob; aligned with paddings -/
+example : PathHead (S "@{user_config_dirs}/app{,.d}/{a,b{c,d}}[0-9]*.conf") ∧
+    Atomic (S "@{user_config_dirs}/app{,.d}/{a,b{c,d}}[0-9]*.conf") ∧ Plain (S "@{user_config_dirs}/app{,.d}/{a,b{c,d}}[0-9]*.conf") ∧
+    cscan 0 (joinPad (fileToks true true true (S "@{user_config_dirs}/app{,.d}/{a,b{c,d}}[0-9]*.conf") (S "rwPx")) [0, 2, 0, 3]) = some 0 := by
+  refine ⟨⟨'@', _, rfl, Or.inr rfl⟩, ?_, ?_, ?_⟩ <;> decide +kernel
 
 /-! ## Whole-text round trips over the complete value tables
 
